@@ -62,7 +62,13 @@ func (d *Deadline) Err() error {
 }
 
 func (d *Deadline) timeout() {
+	if vt.On {
+		vt.Step("dl.timeout")
+	}
 	d.Cancel(os.ErrDeadlineExceeded)
+	if vt.On {
+		vt.Step("dl.timeout.done")
+	}
 }
 
 // SetDeadline sets a new time at which the deadline will expire.
@@ -137,6 +143,9 @@ type DeadlineChan[T any] struct {
 // err will be set to a relevant error. Always check that err is nil before using b
 func (d *DeadlineChan[T]) Recv() (b T, err error) {
 	// Return buffered data even if the channel is canceled
+	if vt.On {
+		vt.Step("dc.recv.R1")
+	}
 	select {
 	case b = <-d.C:
 		return
@@ -144,27 +153,37 @@ func (d *DeadlineChan[T]) Recv() (b T, err error) {
 		break
 	}
 
+	if vt.On {
+		vt.Step("dc.recv.R2")
+	}
 	if d.closed.Load() {
 		err = io.EOF
 		return
 	}
-	if vt.On {
-		vt.Yield("dc.recv.closed-checked")
-		vt.Gate("dc.recv.closed-checked")
-	}
 
+	if vt.On {
+		vt.Step("dc.recv.R3")
+	}
 	errChan := d.deadline.Done()
 	if vt.On {
-		vt.Yield("dc.recv.done-captured")
-		vt.Gate("dc.recv.done-captured")
+		vt.Step("dc.recv.R4")
 	}
 	select {
 	case <-errChan:
+		if vt.On {
+			vt.Step("dc.recv.R6")
+		}
 		err = d.deadline.Err()
 		return
 	default:
+		if vt.On {
+			vt.Step("dc.recv.R5")
+		}
 		select {
 		case <-errChan:
+			if vt.On {
+				vt.Step("dc.recv.R6")
+			}
 			err = d.deadline.Err()
 			return
 		case b = <-d.C:
@@ -177,25 +196,45 @@ func (d *DeadlineChan[T]) Recv() (b T, err error) {
 // If the deadline is exceeded, Cancel is called, or Close is called,
 // err will not be nil.
 func (d *DeadlineChan[T]) Send(b T) (err error) {
+	if vt.On {
+		vt.Step("dc.send.S1")
+	}
 	d.m.Lock()
 	defer d.m.Unlock()
 	if vt.On {
-		vt.Yield("dc.send.locked")
-		vt.Gate("dc.send.locked")
+		defer vt.Step("dc.send.SU")
 	}
 
+	if vt.On {
+		vt.Step("dc.send.S2")
+	}
 	if d.closed.Load() {
 		return io.EOF
 	}
 
+	if vt.On {
+		vt.Step("dc.send.S3")
+	}
 	errChan := d.deadline.Done()
+	if vt.On {
+		vt.Step("dc.send.S4")
+	}
 	select {
 	case <-errChan:
+		if vt.On {
+			vt.Step("dc.send.S6")
+		}
 		err = d.deadline.Err()
 		return
 	default:
+		if vt.On {
+			vt.Step("dc.send.S5")
+		}
 		select {
 		case <-errChan:
+			if vt.On {
+				vt.Step("dc.send.S6")
+			}
 			err = d.deadline.Err()
 			return
 		case d.C <- b:
@@ -206,12 +245,14 @@ func (d *DeadlineChan[T]) Send(b T) (err error) {
 
 // SetDeadline sets a time at which calls to Send and Recv will timeout
 func (d *DeadlineChan[T]) SetDeadline(t time.Time) error {
+	if vt.On {
+		vt.Step("dc.setdl.D1")
+	}
 	if d.closed.Load() {
 		return io.EOF
 	}
 	if vt.On {
-		vt.Yield("dc.setdl.closed-checked")
-		vt.Gate("dc.setdl.closed-checked")
+		vt.Step("dc.setdl.D2")
 	}
 	return d.deadline.SetDeadline(t)
 }
@@ -219,8 +260,14 @@ func (d *DeadlineChan[T]) SetDeadline(t time.Time) error {
 // Cancel cancels pending calls to Send and Recv and causes them to return err
 // TODO(hosono) when should Recv return buffered data
 func (d *DeadlineChan[T]) Cancel(err error) error {
+	if vt.On {
+		vt.Step("dc.cancel.X1")
+	}
 	if d.closed.Load() {
 		return io.EOF
+	}
+	if vt.On {
+		vt.Step("dc.cancel.X2")
 	}
 	d.deadline.Cancel(err)
 	return nil
@@ -229,22 +276,29 @@ func (d *DeadlineChan[T]) Cancel(err error) error {
 // Close cancels pending calls to Send and Recv. Those calls will return
 // io.EOF rather than os.ErrDeadlineExceeded even after the deadline has expired
 func (d *DeadlineChan[T]) Close() error {
+	if vt.On {
+		vt.Step("dc.close.K1")
+	}
 	d.m.Lock()
 	defer d.m.Unlock()
+	if vt.On {
+		defer vt.Step("dc.close.KU")
+	}
 
+	if vt.On {
+		vt.Step("dc.close.K2")
+	}
 	if d.closed.Load() {
 		return io.EOF
 	}
+	if vt.On {
+		vt.Step("dc.close.K3")
+	}
 	d.closed.Store(true)
 	if vt.On {
-		vt.Yield("dc.close.flag-set")
-		vt.Gate("dc.close.flag-set")
+		vt.Step("dc.close.K4")
 	}
 	d.deadline.Cancel(io.EOF)
-	if vt.On {
-		vt.Yield("dc.close.cancelled")
-		vt.Gate("dc.close.cancelled")
-	}
 	return nil
 }
 
